@@ -276,6 +276,13 @@ package keeper
 //@   fails_if [C14] #c14-esm: k.esm.GetESMStatus(ctx, msg.AppId).1 && k.esm.GetESMStatus(ctx, msg.AppId).0.Status
 //@   ensures [C12] #c12-owner-is-signer: ok ==> nv.Owner == msg.From
 
+
+// GetVaults: the list of all stored vaults — a deterministic function of the vault store (used as a spec function by the sweeps).
+
+//@ func (k Keeper) GetVaults
+//@   property C15, C09
+//@   pure
+
 //@ func (k msgServer) MsgDepositAndDraw
 //@   property C12, C14
 //@   let v0 = k.GetVault(ctx, msg.UserVaultId).0
